@@ -63,7 +63,7 @@ func TestVerifC20(t *testing.T) {
 	c := kit.Start(t, "C20", "determinism")
 	defer c.Finish()
 	c.Rule("every block of PRNG histories (up to 30 groups incl. dependent groups, app calls touching many resources, payouts, suspensions) is generated on ledger A, then validated on twin ledger B (same blocks, different commit/reload schedule) in several ways: no execution pool, 16-worker backlog pool, after cache flush / forced commit / reload, Eval without validation, and concurrently with reader goroutines; all StateDeltas must have the same structural fingerprint and no validation may fail; distinct = distinct block shapes (transaction kind multiset)")
-	nh := c.N(3, 40)
+	nh := c.N(3, 20)
 	blocks := c.N(45, 200)
 	pool := execpool.MakePool(t)
 	defer pool.Shutdown()
